@@ -32,6 +32,11 @@ pub enum Act {
     ReqU,
     /// request.then_request(request).then_stream(finite local stream).then_send
     ReqV,
+    /// spawn-then-self-abort in the first pass (no request): X spawns a child and aborts its own
+    /// command while a sibling is ready behind it
+    ReqSA0,
+    /// spawn-then-self-abort after a request, with the sibling woken by the same answer
+    ReqSA,
     Respond(usize),
     /// the shell drops the k-th outstanding one-shot request unresolved (hosts that hold typed
     /// requests); on the Core host followed by one no-op event = "one further core call"
@@ -117,6 +122,16 @@ pub enum OneKind {
     AbB,
     /// self-aborting command, task A (request -> abort the whole command)
     AbA,
+    /// request of request.then_stream.then_send (ReqT). In the reference it behaves like `Cmd`,
+    /// but it is a kind of its own: merged with `Cmd` the search would extend only the path
+    /// that reached the merged state first and never drop THIS program's request
+    Ts,
+    /// request of request.then_stream consumed by hand (ReqU); see `Ts`
+    Tu,
+    /// second request of request.then_request.then_stream.then_send; see `Ts`
+    Chain2,
+    /// request of the spawn-then-self-abort command: its task X and the sibling Z wait for it
+    SpawnAbort,
     /// first request of request.then_request.then_stream.then_send (its answer issues the
     /// second request, which then behaves like `Cmd`)
     Chain1,
@@ -148,6 +163,10 @@ pub struct Bounds {
     pub sat: u8,
     /// the typed Core host also drops legacy-API requests
     pub drop_legacy: bool,
+    /// thorough tier: also ReqSA (spawn-then-self-abort after a request), ReqV
+    /// (request.then_request.then_stream) and ReqS (select over two requests); the quick tier
+    /// leaves these three program shapes out to stay fast
+    pub full_alphabet: bool,
 }
 
 impl Ref {
@@ -172,24 +191,35 @@ impl Ref {
     pub fn enabled(&self, host: HostKind, b: &Bounds) -> Vec<Act> {
         let mut v = vec![];
         let bridge = host != HostKind::Direct; // hosts with legacy capabilities
-        if self.oneshots.len() < b.max_oneshots {
-            v.push(Act::ReqC);
-            v.push(Act::ReqJ);
+        // ReqT / ReqU are explored on their own (no other one-shot outstanding next to them):
+        // distinct kinds in every combination would nearly double the state space
+        let exclusive = self.oneshots.iter().any(|k| matches!(k, OneKind::Ts | OneKind::Tu));
+        if self.oneshots.is_empty() {
             v.push(Act::ReqT);
             v.push(Act::ReqU);
-            v.push(Act::ReqV);
+        }
+        if self.oneshots.len() < b.max_oneshots && !exclusive {
+            v.push(Act::ReqC);
+            v.push(Act::ReqJ);
+            if b.full_alphabet {
+                v.push(Act::ReqV);
+                v.push(Act::ReqSA);
+            }
             if bridge {
                 v.push(Act::ReqL);
             }
         }
-        if self.oneshots.len() + 2 <= b.max_oneshots {
-            if !self.oneshots.iter().any(|k| matches!(k, OneKind::Sel | OneKind::SelOrphan)) {
+        if self.oneshots.len() + 2 <= b.max_oneshots && !exclusive {
+            if b.full_alphabet
+                && !self.oneshots.iter().any(|k| matches!(k, OneKind::Sel | OneKind::SelOrphan))
+            {
                 v.push(Act::ReqS);
             }
             if !self.oneshots.iter().any(|k| matches!(k, OneKind::AbA | OneKind::AbB)) {
                 v.push(Act::ReqA);
             }
         }
+        v.push(Act::ReqSA0);
         for k in 0..self.oneshots.len() {
             v.push(Act::Respond(k));
             if self.oneshots[k] != OneKind::Legacy || b.drop_legacy {
@@ -253,8 +283,14 @@ impl Ref {
         };
         match a {
             // in the reference these builder chains are one task with one request, like ReqC
-            Act::ReqC | Act::ReqT | Act::ReqU => self.oneshots.push(OneKind::Cmd),
+            Act::ReqC => self.oneshots.push(OneKind::Cmd),
+            Act::ReqT => self.oneshots.push(OneKind::Ts),
+            Act::ReqU => self.oneshots.push(OneKind::Tu),
             Act::ReqV => self.oneshots.push(OneKind::Chain1),
+            // the command is aborted by its own task in its first pass: nothing is left, nothing
+            // reaches the shell, no event
+            Act::ReqSA0 => {}
+            Act::ReqSA => self.oneshots.push(OneKind::SpawnAbort),
             Act::ReqL => self.oneshots.push(OneKind::Legacy),
             Act::ReqJ => self.oneshots.push(OneKind::Join),
             Act::ReqS => {
@@ -266,8 +302,15 @@ impl Ref {
                 self.oneshots.push(OneKind::AbA);
             }
             Act::Respond(k) => match self.oneshots.remove(k) {
-                OneKind::Cmd | OneKind::Legacy | OneKind::AbB => sat(&mut self.view.got),
-                OneKind::Chain1 => self.oneshots.push(OneKind::Cmd),
+                OneKind::Cmd
+                | OneKind::Legacy
+                | OneKind::AbB
+                | OneKind::Ts
+                | OneKind::Tu
+                | OneKind::Chain2 => sat(&mut self.view.got),
+                OneKind::Chain1 => self.oneshots.push(OneKind::Chain2),
+                // X wakes Z, spawns a child, aborts the command: no output, nothing left
+                OneKind::SpawnAbort => {}
                 OneKind::AbA => {
                     // no output; the whole command is aborted, task B with it
                     for o in self.oneshots.iter_mut() {
@@ -298,6 +341,11 @@ impl Ref {
                 | OneKind::Sel
                 | OneKind::AbA
                 | OneKind::AbB
+                // X is cancelled, which drops the channel Z waits on: Z ends, the command is done
+                | OneKind::SpawnAbort
+                | OneKind::Ts
+                | OneKind::Tu
+                | OneKind::Chain2
                 | OneKind::Chain1 => {}
                 OneKind::Legacy => h.dropped_legacy += 1,
                 // the child is cancelled, which concludes it: the parent carries on
@@ -422,10 +470,17 @@ impl Ref {
         let sel = (count(OneKind::Sel) > 0) as usize;
         let ab = count(OneKind::AbA) + count(OneKind::AbB);
         let ab_cmd = (ab > 0) as usize;
-        let cmd_like = count(OneKind::Cmd) + count(OneKind::Chain1);
-        let one_exec = cmd_like + count(OneKind::Legacy) + count(OneKind::Join) + sel + ab_cmd;
-        let one_cmd = cmd_like + 2 * count(OneKind::Join) + sel + ab;
-        let one_tok = cmd_like + count(OneKind::Legacy) + 2 * count(OneKind::Join) + sel + ab;
+        let cmd_like = count(OneKind::Cmd)
+            + count(OneKind::Chain1)
+            + count(OneKind::Chain2)
+            + count(OneKind::Ts)
+            + count(OneKind::Tu);
+        // spawn-then-self-abort: one command, tasks X and Z, X holds one token
+        let sa = count(OneKind::SpawnAbort);
+        let one_exec = cmd_like + count(OneKind::Legacy) + count(OneKind::Join) + sel + ab_cmd + sa;
+        let one_cmd = cmd_like + 2 * count(OneKind::Join) + sel + ab + 2 * sa;
+        let one_tok =
+            cmd_like + count(OneKind::Legacy) + 2 * count(OneKind::Join) + sel + ab + sa;
         let lt_live = matches!(self.lt, LtP::Live | LtP::LiveCleared) as usize;
         let lt_req = lt_live + (self.lt == LtP::Orphan) as usize;
         let ct_reqs = match self.ct {
@@ -580,6 +635,8 @@ impl BridgeHost {
             Act::ReqT => self.event(CEvent::ReqT(Token::new())),
             Act::ReqU => self.event(CEvent::ReqU(Token::new())),
             Act::ReqV => self.event(CEvent::ReqV(Token::new())),
+            Act::ReqSA0 => self.event(CEvent::ReqSA0),
+            Act::ReqSA => self.event(CEvent::ReqSA(Token::new())),
             Act::Drop(_) => Err("the byte-level bridge cannot drop a request".into()),
             Act::BadAnswer(k) => {
                 let id = self.oneshots.remove(k);
@@ -737,6 +794,8 @@ impl DirectHost {
             Act::ReqT => self.event(CEvent::ReqT(Token::new())),
             Act::ReqU => self.event(CEvent::ReqU(Token::new())),
             Act::ReqV => self.event(CEvent::ReqV(Token::new())),
+            Act::ReqSA0 => self.event(CEvent::ReqSA0),
+            Act::ReqSA => self.event(CEvent::ReqSA(Token::new())),
             Act::Drop(k) => {
                 drop(self.oneshots.remove(k));
                 // the next poll of the commands (the way a test calls effects()/events())
@@ -910,6 +969,8 @@ impl CoreHost {
             Act::ReqT => self.event(CEvent::ReqT(Token::new())),
             Act::ReqU => self.event(CEvent::ReqU(Token::new())),
             Act::ReqV => self.event(CEvent::ReqV(Token::new())),
+            Act::ReqSA0 => self.event(CEvent::ReqSA0),
+            Act::ReqSA => self.event(CEvent::ReqSA(Token::new())),
             Act::Respond(k) => {
                 let mut r = self.oneshots.remove(k);
                 self.resolve(&mut r, COut(7, Token::new()))
@@ -1429,6 +1490,7 @@ pub fn host_child(args: &[String]) -> i32 {
         max_oneshots: get("--max-oneshots").and_then(|s| s.parse().ok()).unwrap_or(2),
         sat: get("--sat").and_then(|s| s.parse().ok()).unwrap_or(1),
         drop_legacy: !args.iter().any(|a| a == "--no-drop-legacy"),
+        full_alphabet: args.iter().any(|a| a == "--full-alphabet"),
     };
     let cap = get("--cap").and_then(|s| s.parse().ok()).unwrap_or(60_000);
     let limit = get("--limit").and_then(|s| s.parse().ok()).unwrap_or(45.0);
@@ -1465,6 +1527,9 @@ fn explore_in_processes(
         if !b.drop_legacy {
             cmd.arg("--no-drop-legacy");
         }
+        if b.full_alphabet {
+            cmd.arg("--full-alphabet");
+        }
         let child = cmd.spawn().unwrap_or_else(|e| {
             mc_kit::machinery_error(&format!("C13: cannot start a host process: {e}"))
         });
@@ -1487,16 +1552,17 @@ fn explore_in_processes(
 pub fn run(tier: Tier, args: &[String]) -> i32 {
     let rep = Reporter::new("C13", tier);
     let drop_legacy = !args.iter().any(|a| a == "--no-drop-legacy");
+    let full_alphabet = tier == Tier::Thorough || args.iter().any(|a| a == "--full-alphabet");
     let arg_max: Option<usize> =
         mc_kit::arg_value(args, "--max-oneshots").and_then(|s| s.parse().ok());
     let arg_sat: Option<u8> = mc_kit::arg_value(args, "--sat").and_then(|s| s.parse().ok());
     // thorough: two sets of app bounds - more outstanding one-shots, and counters that
     // saturate later - each closed on its own
     let mut configs: Vec<Bounds> = match tier {
-        Tier::Quick => vec![Bounds { max_oneshots: 2, sat: 1, drop_legacy }],
+        Tier::Quick => vec![Bounds { max_oneshots: 2, sat: 1, drop_legacy, full_alphabet }],
         Tier::Thorough => vec![
-            Bounds { max_oneshots: 3, sat: 1, drop_legacy },
-            Bounds { max_oneshots: 2, sat: 2, drop_legacy },
+            Bounds { max_oneshots: 3, sat: 1, drop_legacy, full_alphabet },
+            Bounds { max_oneshots: 2, sat: 2, drop_legacy, full_alphabet },
         ],
     };
     if arg_max.is_some() || arg_sat.is_some() {
@@ -1504,12 +1570,14 @@ pub fn run(tier: Tier, args: &[String]) -> i32 {
             max_oneshots: arg_max.unwrap_or(2),
             sat: arg_sat.unwrap_or(1),
             drop_legacy,
+            full_alphabet,
         }];
     }
     let b = Bounds {
         max_oneshots: configs[0].max_oneshots,
         sat: configs[0].sat,
         drop_legacy,
+        full_alphabet,
     };
     let cap = mc_kit::arg_value(args, "--cap")
         .and_then(|s| s.parse().ok())
@@ -1655,10 +1723,13 @@ pub fn run(tier: Tier, args: &[String]) -> i32 {
         "distinct_nontrivial": nontrivial,
         "rule": "a merged state other than the initial one (state key = reference logical state + view + gauges)",
         "exhaustive": all_closed,
+        "exhaustive_note": if full_alphabet { "the reachable set closed under the full action alphabet" } else { "the reachable set closed under the QUICK action alphabet: the program shapes ReqSA (spawn-then-self-abort after a request), ReqV (request.then_request.then_stream.then_send) and ReqS (select over two requests) are explored in the thorough tier only; ReqSA0, ReqT, ReqU and everything else are in both" },
+        "thorough_only_actions": ["ReqSA", "ReqV", "ReqS"],
+        "full_action_alphabet_in_this_run": full_alphabet,
         "closed": closed_json,
         "state_cap": cap,
         "hosts": hosts_json,
-        "action_alphabet": "ReqC (Command-API one-shot), ReqL (legacy one-shot), ReqJ (task: spawn(child awaiting a shell request); join_handle.await; event), ReqT (request.then_stream(finite local stream).then_send), ReqU (request.then_stream consumed by hand inside Command::new), ReqV (request.then_request.then_stream.then_send) - each with answer and drop / undecodable answer at every position, ReqS (one task awaiting select over two shell requests), ReqA (self-aborting command: task B request -> event, task A request -> the command's own AbortHandle, no output), Respond(k) for every outstanding one-shot k (also the orphaned member of a finished select), BadAnswer(k): an undecodable answer to the k-th outstanding one-shot on the Bridge host (must be rejected; the request is used up; followed by one no-op event), Drop(k): the shell drops the k-th outstanding one-shot unresolved (Command-API requests on both hosts, legacy requests on the typed-Core host) (direct and typed-Core hosts; on the Core host followed by one no-op event = one further core call; the bridge cannot drop), Sub, Unsub (AbortHandle kept in the model), Item (stream item; also after unsubscribe and after the task ended), Render, CTimerSet / CTimerClear (TimerHandle) / CTimerFire (answer NotifyAfter, also the orphaned one) / CTimerCleared (answer Clear), LTimerSet / LTimerClear (also after the timer finished) / LTimerFire; legacy request futures that are created and never polled: LReqUnpolled (built, not awaited, event, end), LSelUnpolled (select(ready, request)), LTimerSetCleared (notify_after + clear(id) in one update through a mapped Time capability whose mapping closure owns a token) - none leaves outstanding work; after EVERY explored path the host is dropped",
+        "action_alphabet": "ReqC (Command-API one-shot), ReqL (legacy one-shot), ReqJ (task: spawn(child awaiting a shell request); join_handle.await; event), ReqT (request.then_stream(finite local stream).then_send), ReqU (request.then_stream consumed by hand inside Command::new), ReqV (request.then_request.then_stream.then_send) - each with answer and drop / undecodable answer at every position, ReqSA0 / ReqSA (spawn-then-self-abort: a task ctx.spawn()s a child capturing a token and calls its own command's AbortHandle in one poll while a sibling task is queued behind it in the same pass - immediately, or after a request whose answer also wakes the sibling), ReqS (one task awaiting select over two shell requests), ReqA (self-aborting command: task B request -> event, task A request -> the command's own AbortHandle, no output), Respond(k) for every outstanding one-shot k (also the orphaned member of a finished select), BadAnswer(k): an undecodable answer to the k-th outstanding one-shot on the Bridge host (must be rejected; the request is used up; followed by one no-op event), Drop(k): the shell drops the k-th outstanding one-shot unresolved (Command-API requests on both hosts, legacy requests on the typed-Core host) (direct and typed-Core hosts; on the Core host followed by one no-op event = one further core call; the bridge cannot drop), Sub, Unsub (AbortHandle kept in the model), Item (stream item; also after unsubscribe and after the task ended), Render, CTimerSet / CTimerClear (TimerHandle) / CTimerFire (answer NotifyAfter, also the orphaned one) / CTimerCleared (answer Clear), LTimerSet / LTimerClear (also after the timer finished) / LTimerFire; legacy request futures that are created and never polled: LReqUnpolled (built, not awaited, event, end), LSelUnpolled (select(ready, request)), LTimerSetCleared (notify_after + clear(id) in one update through a mapped Time capability whose mapping closure owns a token) - none leaves outstanding work; after EVERY explored path the host is dropped",
         "app_bounds": {"configurations (max outstanding one-shots, counters saturate at)": configs.iter().map(|c| (c.max_oneshots, c.sat)).collect::<Vec<_>>(), "live_subscriptions": 1, "command_api_timers": 1, "legacy_timers": 1},
         "state_key": "(reference: outstanding one-shots with their API in issue order, subscription phase, timer phases, expected view; gauges: registry once/many entries, executor task slots | live commands, sum of Command::verif_live_tasks, queued spawns/wake-ups/effects/events, cleared-timer-set size relative to the start of the path, live drop-tokens). Projected out because a listed finding makes them unbounded (each reported): `Never` registry entries (K3), cleared-set ids of timers cleared after they finished (K4), executor slots and tokens of legacy tasks whose request was dropped (accepted only when exactly one slot per dropped legacy request is stuck)",
         "oracle": "in every reachable state: registry once <= outstanding one-shot requests the shell holds, many <= subscriptions the shell has not been told are finished, never == 0; executor tasks / live commands / command tasks <= live pieces of work; cleared set <= cleared pending timers; live tokens <= tokens owned by live tasks (+ payloads of requests the harness holds); all queues empty after the call; after dropping the host 0 tokens; view == reference view; gauge BELOW the reference = reference error, reported under reference/*",
@@ -1693,6 +1764,7 @@ pub fn replay_file(path: &str) -> i32 {
         max_oneshots: case["bounds"]["max_oneshots"].as_u64().unwrap_or(2) as usize,
         sat: case["bounds"]["saturation"].as_u64().unwrap_or(1) as u8,
         drop_legacy: case["bounds"]["drop_legacy"].as_bool().unwrap_or(true),
+        full_alphabet: true,
     };
     println!("replaying {p:?} on the {host:?} host");
     let out = run_path(host, &p, &b, true);
